@@ -447,6 +447,54 @@ def r3_scan(rep, ctx):
                 calls = [c for c in own_nodes(in_lp) if is_checkvalue(c) and c.args and isinstance(c.args[0], ast.Name) and c.args[0].id == in_lp.target.id]
                 ok = ok or bool(calls)
     rep.check(ok, "C12.R3", "tuples:every-element", "in the tuple-of-tuples branch every component of every tuple reaches CheckValue", "the tuple-of-tuples branch does not hand every component to CheckValue", fn=fn)
+    # every amount handed to CheckValue is an element (tuple branch) or a scan accumulator: an aggregate of the whole
+    # container (values.min(), max(values), numpy.amin(values)) does not skip NaN elements - numpy's min of an array
+    # holding a NaN is NaN, which satisfies no limit; the builtin's result depends on where the NaN stands
+    tuple_elems = {in_lp.target.id for lp in tup for in_lp in own_statements(lp) if isinstance(in_lp, ast.For) and isinstance(in_lp.target, ast.Name)}
+
+    def whole_container(e, depth=0):
+        """sub-expression that calls a min/max-like aggregate on the `values` parameter itself, if any"""
+        if depth > 4:
+            return None
+        for x in ast.walk(e):
+            if isinstance(x, ast.Call):
+                fname = x.func.attr if isinstance(x.func, ast.Attribute) else x.func.id if isinstance(x.func, ast.Name) else ""
+                recv_is_values = isinstance(x.func, ast.Attribute) and isinstance(x.func.value, ast.Name) and x.func.value.id == "values"
+                arg_is_values = any(isinstance(a_, ast.Name) and a_.id == "values" for a_ in x.args)
+                if (recv_is_values or arg_is_values) and fname:
+                    return x, fname
+            if isinstance(x, ast.Name) and isinstance(x.ctx, ast.Load) and x is not e:
+                pass
+        if isinstance(e, ast.Name):
+            for st in assigns:
+                if isinstance(st.targets[0], ast.Name) and st.targets[0].id == e.id and not (isinstance(st.value, ast.Name)):
+                    got = whole_container(st.value, depth + 1)
+                    if got:
+                        return got
+        return None
+
+    nan_on_whole = any(isinstance(x, ast.Call) and "isnan" in ast.unparse(x.func).lower() and any(isinstance(a_, ast.Name) and a_.id == "values" for a_ in x.args) for x in own_nodes(fn.node))
+    n_args = 0
+    for c in own_nodes(fn.node):
+        if not (is_checkvalue(c) and c.args):
+            continue
+        n_args += 1
+        a0 = c.args[0]
+        if isinstance(a0, ast.Name) and (a0.id in tuple_elems or a0.id in pair_loops):
+            continue
+        got = srcs(a0)
+        if got and got <= want:
+            continue
+        agg = whole_container(a0)
+        if agg is None:
+            raise AnalysisError("Array._DoValidateValues: where the amount `%s` handed to CheckValue comes from was not recognised" % norm(ast.unparse(a0))[:60])
+        call_, fname = agg
+        if nan_on_whole or "nan" in fname.lower() or fname.lower() not in ("min", "max", "amin", "amax"):
+            raise AnalysisError("Array._DoValidateValues: `%s` is computed from the whole container by `%s` (possibly NaN-aware): not judged" % (norm(ast.unparse(a0))[:60], fname))
+        rep.bad("C12.R3", "scan:aggregate-of-container:%s" % fname,
+                "`%s` hands CheckValue an aggregate of the whole container instead of the NaN-skipping scan's extremes: with a NaN element numpy's %s is NaN (no limit is satisfied), so an Array is rejected although every non-NaN amount satisfies the limits - and the verdict depends on the container kind" % (norm(ast.unparse(c))[:70], fname),
+                node=c, fn=fn)
+    rep.floor("C12.R3", "amounts handed to CheckValue in Array._DoValidateValues", n_args, 2)
     # CheckValue is the quantity's
     PQ = ("param", fn.params.index("quantity"), "quantity") if "quantity" in fn.params else None
     cvs = [c for c in own_nodes(fn.node) if is_checkvalue(c)]
